@@ -30,10 +30,10 @@ RULE = ("cap = ChannelPackageQueueSize = 4 (also 1; thorough: 1, 2, 8 in the fil
         "every channel reports closed, transport closed, reader goroutine returned, goroutine count back to the count before the connection was made. "
         "fn 11 packets for a closed channel: channel 0 / a logical channel closed by Channel.Close or Conn.Close, then packets of every kind - header-only (length 8) of types PROTACK, CLOSE, NORMAL, RESPONSE, SETUP with and "
         "without EOM, packets with a complete / a partial package with and without EOM - each alone and all 14 in a row, handed to Channel.WritePacket directly and sent through the reader goroutine (connection error queue emptied after "
-        "each): 78 cases; output: every call returned / the reader idle again, queue lengths, ids reported invalid, NextPackage result, Conn.Close returned, reader ended. fn 12 the same packet kinds in the WINDOW: a consumer waits in "
+        "each): 86 cases; output: every call returned / the reader idle again, queue lengths, ids reported invalid, NextPackage result, Conn.Close returned, reader ended. fn 12 the same packet kinds in the WINDOW: a consumer waits in "
         "NextPackage on logical channel 1, Close / Conn.Close has sent the teardown and waits for the write lock, the packet arrives and the reader (channel still registered) queues in WritePacket's RLock behind the pending writer "
         "(both parked states seen in the goroutine dump), the consumer's context is cancelled: 20 cases. fn 10 concurrent closers (as C12 fn 5): 2..3 goroutines in Channel.Close of one logical channel, Conn.Close among them, the "
-        "transport holds the teardown packets until every closer is parked in the write or has returned: 16 cases, GOMAXPROCS 1/4. "
+        "transport holds the teardown packets until every closer is parked in the write or has returned: 24 cases, GOMAXPROCS 1/4. "
         "Watchdogs: a call that must return gets 4 s, the known blocking scenarios are observed for 3 s; only booleans reach the case file. Distinct by (fn, input).")
 TRUSTED = ["Coq 8.16.1 kernel + vm_compute (no native_compute)",
            "hand-written models coq/theories/C13/Model.v + C13/Closers.v of NextPackage / NextPackageUntil / sendPackets / WritePacket / Close / Conn.Close / Conn.ReadFrom (tied by this correspondence: "
